@@ -480,6 +480,30 @@ func (c *Ctx) trCall(x *ast.CallExpr) Val {
 			}
 		}
 		return bval(and(cs...))
+	case "bytesframe":
+		// bytesframe(s): byte memory is unchanged except for the backing array of s
+		if c.Old == nil {
+			c.fail(x, "bytesframe() needs an old state")
+		}
+		v := c.tr(args[0])
+		k := elemKey(tByte, 0)
+		so := "(Array Int (Array Int Int))"
+		nm := c.E.heapKey(c.St, k, so)
+		om := c.E.heapKey(c.Old.St, k, so)
+		return bval(eq(nm, app("store", om, v.C[0], app("select", nm, v.C[0]))))
+	case "freshbytes":
+		// freshbytes(s): s is a newly allocated byte slice (or nil) and no other byte memory changed
+		if c.Old == nil {
+			c.fail(x, "freshbytes() needs an old state")
+		}
+		v := c.tr(args[0])
+		k := elemKey(tByte, 0)
+		so := "(Array Int (Array Int Int))"
+		nm := c.E.heapKey(c.St, k, so)
+		om := c.E.heapKey(c.Old.St, k, so)
+		oa := c.E.heapKey(c.Old.St, "alloc", SInt)
+		na := c.E.heapKey(c.St, "alloc", SInt)
+		return bval(and(or(eq(v.C[0], "0"), and(app("<=", oa, v.C[0]), app("<", v.C[0], na))), eq(nm, app("store", om, v.C[0], app("select", nm, v.C[0]))), eq(v.C[1], "0")))
 	case "isZero":
 		v := c.tr(args[0])
 		z := zeroVal(v.T)
